@@ -35,6 +35,16 @@ def call_entry(rng, entry, cls, model, invalid=True, warm=False):
         # any stated permeate temperature counts: a liquid-nitrogen trap, a few kelvin, a fraction of a kelvin
         Tperm = rng.choice([77.0, 77.15, 4.2, 20.0, 99.0, 100.0, 150.0, gen.logu(rng, 1e-3, 200.0)])
     pperm = (rng.uniform(0.0, 3.0) if rng.random() < 0.75 else 0.0) if both else None       # 0.0 kPa is a stated pressure too
+    if both and rng.random() < 0.35:
+        # a stated condition is a stated condition whatever numeric type carries it (an element of numpy.arange, a float32 column, a Fraction)
+        import fractions
+        import numpy
+        conv = rng.choice([lambda v: numpy.int64(round(v)), numpy.float32, lambda v: fractions.Fraction(v).limit_denominator(1000),
+                           numpy.float64, lambda v: int(round(v))])
+        if rng.random() < 0.5:
+            Tperm = conv(Tperm)
+        else:
+            pperm = conv(pperm)
     c = pv.Composition(p=rng.uniform(0.05, 0.95), type=gen.tstr(rng, rng.choice(["weight", "molar"])))
     if invalid and cls in ("model_params_missing", "component_constants_missing") and entry in ("activity", "partial_pressures", "solver") \
             and rng.random() < 0.3:
@@ -159,6 +169,19 @@ def call_entry(rng, entry, cls, model, invalid=True, warm=False):
                 exps = [pv.IdealExperiment(name="e", temperature=320.0, component=comp, permeance=P1, activation_energy=None),
                         pv.IdealExperiment(name="e", temperature=340.0, component=comp, permeance=P2, activation_energy=None)]
             mem = pv.Membrane(name="v", ideal_experiments=pv.IdealExperiments(experiments=exps))
+            if invalid and not warm and rng.random() < 0.5:
+                # the same underdetermined penetrant read from an experiments FILE, its single row (blank activation energy) standing
+                # below a row of another penetrant that states one
+                from . import rec_membrane as rm
+                import os
+                comp, other_c = rng.sample(gen.builtin_components(), 2)
+                rows = [pv.IdealExperiment(name="o", temperature=rng.uniform(300.0, 350.0), component=other_c, permeance=P2,
+                                           activation_energy=rng.uniform(5000.0, 60000.0)),
+                        pv.IdealExperiment(name="e", temperature=320.0, component=comp, permeance=P1, activation_energy=None)]
+                if rng.random() < 0.3:
+                    rows.insert(0, pv.IdealExperiment(name="o2", temperature=rng.uniform(300.0, 350.0), component=other_c, permeance=P2,
+                                                      activation_energy=rng.uniform(5000.0, 60000.0)))
+                mem = rm.build_membrane(rng, rows, True, os.environ.get("VERIF_SCRATCH") or None)
             if invalid and warm:
                 # the same membrane object, complete at first and asked validly; the second experiment is then withdrawn in place
                 mem = pv.Membrane(name="v", ideal_experiments=pv.IdealExperiments(experiments=exps + [
